@@ -211,6 +211,39 @@ func (e *Engine) intrinsic(st *State, f *Frame, fn *ssa.Function, args []Value, 
 		eq := Eq(cur, asTerm(args[1]))
 		st.store(p, Ite(eq, asTerm(args[2]), cur))
 		return ret(eq), true
+	case "(*sync/atomic.Value).Load":
+		p := args[0].(*PtrVal)
+		return ret(st.load(&PtrVal{obj: p.obj, path: appendPath(p.path, 0)})), true
+	case "(*sync/atomic.Value).Store":
+		p := args[0].(*PtrVal)
+		st.store(&PtrVal{obj: p.obj, path: appendPath(p.path, 0)}, args[1])
+		return ret(nil), true
+	case "(*sync/atomic.Int32).Load", "(*sync/atomic.Int64).Load", "(*sync/atomic.Uint32).Load", "(*sync/atomic.Uint64).Load", "(*sync/atomic.Bool).Load":
+		p := args[0].(*PtrVal)
+		v := st.load(&PtrVal{obj: p.obj, path: appendPath(p.path, 1)})
+		if name == "Load" && strings.Contains(full, "Bool") {
+			return ret(Not(Eq(asTerm(v), BV(0, 32)))), true
+		}
+		return ret(v), true
+	case "(*sync/atomic.Int32).Store", "(*sync/atomic.Int64).Store", "(*sync/atomic.Uint32).Store", "(*sync/atomic.Uint64).Store":
+		p := args[0].(*PtrVal)
+		st.store(&PtrVal{obj: p.obj, path: appendPath(p.path, 1)}, args[1])
+		return ret(nil), true
+	case "(*sync/atomic.Int32).Add", "(*sync/atomic.Int64).Add", "(*sync/atomic.Uint32).Add", "(*sync/atomic.Uint64).Add":
+		p := args[0].(*PtrVal)
+		q := &PtrVal{obj: p.obj, path: appendPath(p.path, 1)}
+		nv := Add(asTerm(st.load(q)), asTerm(args[1]))
+		st.store(q, nv)
+		return ret(nv), true
+	case "time.AfterFunc", "time.NewTimer":
+		e.res.Stubs[full]++
+		id := st.newObj(zeroValue(fn.Signature.Results().At(0).Type().(*types.Pointer).Elem()), nil, "timer")
+		return ret(&PtrVal{obj: id}), true
+	case "(*time.Timer).Stop", "(*time.Timer).Reset":
+		return ret(tTrue), true
+	case "time.Now":
+		e.res.Stubs[full]++
+		return ret(zeroValue(fn.Signature.Results().At(0).Type())), true
 	// ---- encoding/binary ----
 	case "(encoding/binary.littleEndian).Uint16", "(encoding/binary.littleEndian).Uint32", "(encoding/binary.littleEndian).Uint64":
 		n := map[string]int{"Uint16": 2, "Uint32": 4, "Uint64": 8}[name]
@@ -472,6 +505,9 @@ func (e *Engine) harnessIntrinsic(st *State, f *Frame, fn *ssa.Function, name st
 			n += c
 		}
 		return ret(c64(int64(n)))
+	case "vMutexFree":
+		p := args[0].(*PtrVal)
+		return ret(Bool(st.locks[e.lockKey(st, p)] == 0))
 	case "vHavocChan":
 		id := st.newObj(&ChanContent{havoc: true}, nil, "havoc-chan")
 		return ret(&ChanVal{obj: id})
